@@ -533,6 +533,7 @@ func c08() {
 			kc.strace = true
 			run.Count("children_seeing_a_faked_kernel_release", 1)
 		}
+		kc.cc.Env = vlib.RuntimeKnobs[(i/3)%len(vlib.RuntimeKnobs)]
 		kc.desc = fmt.Sprintf("case %d %s", i, kc.desc)
 		judgeEnforce(run, o, kc, st, "")
 		if i == 1 || i == 2 {
